@@ -326,6 +326,7 @@ func (h *vHist) checkEnter(w *vWorld, e *vExec) {
 	h.assert("C03.reg", w.cur >= 0)
 	if w.cur >= 0 && f.kind != vInvoked && w.inv != nil {
 		h.assert("C03.only", vHas(w.inv.may, r))
+		h.assert("C11.norun", vHas(w.inv.may, r))
 	}
 	// C01 / C07 / C12: every argument is what the model resolves
 	scope := w.resScope(r)
@@ -639,6 +640,7 @@ func (h *vHist) afterInvoke(w *vWorld, r *vReg, o vOutcome, cl *vClosure, before
 	for i, reg := range w.regs {
 		if !vHas(cl.may, reg) {
 			h.assert("C03.only", len(reg.execs) == before[i])
+			h.assert("C11.norun", len(reg.execs) == before[i])
 			if len(reg.execs) == 0 && reg.accepted {
 				verifWitness("bystander")
 			}
